@@ -250,6 +250,11 @@ def havoc_value(st, cur, hint):
 
 
 def havoc_location(st, ref, field, hint):
+    if field == '*':
+        for f in list(st.heap[ref.id]):
+            if not f.startswith('__') and not isinstance(st.heap[ref.id][f], Ref):
+                havoc_location(st, ref, f, f'{hint}.{f}')
+        return
     cur = st.getf(ref, field)
     st.setf(ref, field, havoc_value(st, cur, hint))
 
